@@ -172,6 +172,71 @@ def sparse_episodes(seed, count, max_m=120):
     return out
 
 
+def long_equation_system(r, huge=False):
+    """a few equations with hundreds of variables (around 255 / 256 / 257: counters narrower than usize) among
+    many equations of two or three variables sharing their variables: the long ones are picked up late by the lazy
+    solver, with most of their variables already solved or active; planted solution (solvable)"""
+    wt = r.choice(list(WT))
+    w = WT[wt]
+    ln = r.choice([254, 255, 256, 256, 257, 258, 300, 511, 512, 513])
+    style = r.randrange(3)
+    if huge:          # 16-bit counters
+        ln, style, wt = r.choice([65535, 65536, 65537]), 0, "u8"
+        w = WT[wt]
+    nv = ln + r.choice([3, 10, 300, 2 * ln + 5])
+    planted = [rword(r, w) for _ in range(nv)]
+    rows = []
+
+    def eq(v):
+        v = sorted(set(v))
+        c = 0
+        for x in v:
+            c ^= planted[x]
+        rows.append((v, c))
+
+    nlong = r.choice([1, 1, 2, 3])
+    longs = []
+    for _ in range(nlong):
+        start = r.randrange(0, nv - ln + 1)
+        v = list(range(start, start + ln)) if r.random() < 0.5 else r.sample(range(nv), ln)
+        longs.append(sorted(v))
+        eq(v)
+    lv = longs[0]
+    if style == 0:
+        # chains hanging off variables of the long equation, private variables for the others
+        nxt = [x for x in range(nv) if x not in set(lv)]
+        r.shuffle(nxt)
+        for x in lv:
+            for _ in range(r.choice([0, 1, 2, 2])):
+                if not nxt:
+                    break
+                y = nxt.pop() if r.random() < 0.8 else r.choice(range(nv))
+                if y != x:
+                    eq([x, y])
+        for _ in range(r.randrange(0, 6)):      # short chains between outside variables
+            a, b = r.sample(range(nv), 2)
+            eq([a, b])
+    elif style == 1:
+        # random sparse equations over all the variables
+        for _ in range(r.randrange(nv // 3, nv)):
+            eq(r.sample(range(nv), r.choice([2, 2, 3, 3, 4])))
+    else:
+        # every variable of the long equation also in two short equations
+        for x in lv:
+            for _ in range(2):
+                eq([x] + r.sample(range(nv), r.choice([1, 2])))
+    r.shuffle(rows)
+    ops = []
+    for a in ("lazy", "gauss"):
+        ops.append({"op": "solve", "alg": a, "ctor": r.choice(["push", "parts"])})
+    return mk("long", wt, nv, rows, ops)
+
+
+def long_episodes(seed, count, huge=0):
+    r = random.Random(seed ^ 0x256)
+    return [long_equation_system(r) for _ in range(count)] + [long_equation_system(r, huge=True) for _ in range(huge)]
+
+
 def ood_episodes(seed, count):
     """C12: equations with an empty variable list, variables at or beyond the
     declared number, repeated variables (sorted, not strictly), systems with
